@@ -225,8 +225,12 @@ impl HeaderMetadataSpec {
             let val_u8 = val.to_u8().unwrap();
             let byte_addr = self.meta_addr(header);
             if let Some(order) = atomic_ordering {
+                #[cfg(feature = "verif")]
+                crate::util::verif::rt::sched_point(crate::util::verif::rt::Kind::AtomicLoad, byte_addr.as_usize());
                 let _ = unsafe {
                     <u8 as MetadataValue>::fetch_update(byte_addr, order, order, |old_val: u8| {
+                        #[cfg(feature = "verif")]
+                        crate::util::verif::rt::sched_point(crate::util::verif::rt::Kind::AtomicCas, byte_addr.as_usize());
                         Some(self.set_bits_to_u8(old_val, val_u8))
                     })
                 };
@@ -243,7 +247,11 @@ impl HeaderMetadataSpec {
                 if let Some(order) = atomic_ordering {
                     // if the optional mask is provided (e.g. for forwarding pointer), we need to use compare_exchange
                     if let Some(mask) = optional_mask {
+                        #[cfg(feature = "verif")]
+                        crate::util::verif::rt::sched_point(crate::util::verif::rt::Kind::AtomicLoad, addr.as_usize());
                         let _ = T::fetch_update(addr, order, order, |old_val: T| {
+                            #[cfg(feature = "verif")]
+                            crate::util::verif::rt::sched_point(crate::util::verif::rt::Kind::AtomicCas, addr.as_usize());
                             Some(old_val.bitand(mask.inv()).bitor(val.bitand(mask)))
                         });
                     } else {
@@ -328,12 +336,16 @@ impl HeaderMetadataSpec {
         update: F,
     ) -> u8 {
         let byte_addr = self.meta_addr(header);
+        #[cfg(feature = "verif")]
+        crate::util::verif::rt::sched_point(crate::util::verif::rt::Kind::AtomicLoad, byte_addr.as_usize());
         let old_raw_byte = unsafe {
             <u8 as MetadataValue>::fetch_update(
                 byte_addr,
                 set_order,
                 fetch_order,
                 |raw_byte: u8| {
+                    #[cfg(feature = "verif")]
+                    crate::util::verif::rt::sched_point(crate::util::verif::rt::Kind::AtomicCas, byte_addr.as_usize());
                     let old_metadata = self.get_bits_from_u8(raw_byte);
                     let new_metadata = self.truncate_bits_in_u8(update(old_metadata));
                     let new_byte = self.set_bits_to_u8(raw_byte, new_metadata);
@@ -421,11 +433,15 @@ impl HeaderMetadataSpec {
         if self.num_of_bits < 8 {
             let byte_addr = self.meta_addr(header);
             unsafe {
+                #[cfg(feature = "verif")]
+                crate::util::verif::rt::sched_point(crate::util::verif::rt::Kind::AtomicLoad, byte_addr.as_usize());
                 <u8 as MetadataValue>::fetch_update(
                     byte_addr,
                     set_order,
                     fetch_order,
                     |raw_byte: u8| {
+                        #[cfg(feature = "verif")]
+                        crate::util::verif::rt::sched_point(crate::util::verif::rt::Kind::AtomicCas, byte_addr.as_usize());
                         let old_metadata = self.get_bits_from_u8(raw_byte);
                         f(FromPrimitive::from_u8(old_metadata).unwrap()).map(|new_val| {
                             let new_metadata = self.truncate_bits_in_u8(new_val.to_u8().unwrap());
@@ -437,6 +453,13 @@ impl HeaderMetadataSpec {
             .map(|raw_byte| FromPrimitive::from_u8(self.get_bits_from_u8(raw_byte)).unwrap())
             .map_err(|raw_byte| FromPrimitive::from_u8(self.get_bits_from_u8(raw_byte)).unwrap())
         } else {
+            #[cfg(feature = "verif")]
+            crate::util::verif::rt::sched_point(crate::util::verif::rt::Kind::AtomicLoad, self.meta_addr(header).as_usize());
+            #[cfg(feature = "verif")]
+            let f = |x: T| {
+                crate::util::verif::rt::sched_point(crate::util::verif::rt::Kind::AtomicCas, self.meta_addr(header).as_usize());
+                f(x)
+            };
             unsafe { T::fetch_update(self.meta_addr(header), set_order, fetch_order, f) }
         }
     }
